@@ -10,6 +10,7 @@ REG = {
     "C03": ("vf.checks.ode_props", "C03"), "C04": ("vf.checks.ode_props", "C04"),
     "C19": ("vf.checks.c19", "C19"),
     "C15": ("vf.checks.chx_props", "C15"),
+    "C14": ("vf.checks.c14", "C14"),
     "C16": ("vf.checks.c16", "C16"),
     "C13": ("vf.checks.c13", "C13"),
     "C20": ("vf.checks.c20", "C20"),
